@@ -1,7 +1,7 @@
 //! C06: an honestly built block is accepted by its parent; every single-field mutation is rejected.
 use std::panic::{catch_unwind, AssertUnwindSafe};
 
-use melstf::UnsealedState;
+use melstf::{verif_hooks as vh, UnsealedState};
 use melstructs::{Address, Block, CoinData, CoinID, CoinValue, Denom, NetID, ProposerAction, Transaction, TxKind};
 use novasmt::{Database, InMemoryCas};
 use serde_json::{json, Value as J};
@@ -86,6 +86,28 @@ pub fn c08(req: &J) -> J {
         let min = mk(0).base_fee(1001, 0, |c| melvm::covenant_weight_from_bytes(c)).0;
         let min = mk(min + tip).base_fee(1001, 0, |c| melvm::covenant_weight_from_bytes(c)).0;
         next.apply_tx(&mk(min + tip)).expect("tx");
+        // optionally move the stop point to another height (the previous header is made up, the rest of the state stays)
+        // and register stakes, so that epoch boundaries and expiring stakes are reachable quickly
+        if let Some(height) = req["height"].as_u64() {
+            if height >= 2 {
+                let mut hdr = parent.header();
+                hdr.height = (height - 1).into();
+                vh::history_mut(&mut next).insert((height - 1).into(), hdr);
+                let (fp, tips, mult, speed) = (vh::fee_pool(&next), vh::tips(&next), vh::fee_multiplier(&next), vh::dosc_speed(&next));
+                vh::fabricate(&mut next, NetID::Custom02, height, fp, tips, mult, speed);
+            }
+        }
+        if let Some(stakes) = req["stakes"].as_array() {
+            for (i, sd) in stakes.iter().enumerate() {
+                let mut h = [0u8; 32];
+                h[0] = 0x51 + i as u8;
+                vh::stakes_mut(&mut next).add_stake(
+                    melstructs::TxHash(HashVal(h)),
+                    melstructs::StakeDoc { pubkey: tmelcrypt::Ed25519PK([3u8; 32]), e_start: sd["e_start"].as_u64().unwrap_or(0),
+                                           e_post_end: sd["e_post_end"].as_u64().unwrap_or(0), syms_staked: CoinValue(1000 + i as u128) },
+                );
+            }
+        }
         let action = if req["with_action"].as_bool().unwrap_or(false) {
             Some(ProposerAction { fee_multiplier_delta: 5, reward_dest: Address(HashVal([9u8; 32])) })
         } else {
